@@ -17,6 +17,7 @@ both ways."""
 from __future__ import annotations
 
 import ast
+import os
 import builtins as _b
 import math
 import operator
@@ -2138,10 +2139,13 @@ class Interp:
             if isinstance(src_, Unknown):
                 return self.fresh(f"next({src_.sym})")
             raise PyRaise(ExcVal("TypeError", (f"{type(src_).__name__} object is not an iterator",)))
-        if name == "map" and len(args) >= 2 and not kwargs and not any(isinstance(a, Unknown) for a in args[1:]):
+        if name == "map" and len(args) >= 2 and not kwargs and not any(isinstance(a, Unknown) for a in args[1:]) and not os.environ.get("OPSA_NO_MAP"):
             # map(f, *iterables): f applied element-wise (to the shortest), through the interpreter
-            cols = [list(self.iterate(a)) for a in args[1:]]
-            return _Iter([self.call(args[0], list(row), {}) for row in zip(*cols)])
+            try:
+                cols = [list(self.iterate(a)) for a in args[1:]]
+                return _Iter([self.call(args[0], list(row), {}) for row in zip(*cols)])
+            except (Imprecise, TypeError, AttributeError, KeyError, IndexError):
+                return self.fresh("map")          # not modelled for these arguments: an arbitrary iterable, as before
         if name == "filter" and len(args) == 2 and not isinstance(args[1], Unknown):
             items_ = list(self.iterate(args[1]))
             return _Iter([x for x in items_ if (self.truth(x) if args[0] is None else self.truth(self.call(args[0], [x], {})))])
